@@ -196,7 +196,7 @@ Exports == {[entries |-> es, extra |-> x, truncated |-> FALSE] : es \in ExpEntry
 \* of two representatives of the type ("lo" = smallest class, "hi" = largest class / longest string).
 RowTypes == <<"INTEGER", "FLOAT", "TIMESTAMP", "UUID", "BOOLEAN", "VARCHAR", "BLOB">>
 Rows == {[cols |-> p] : p \in [1..Len(RowTypes) -> {"NULL", "lo", "hi"}]}
-\* nullable single value codec (used by the sort spill files): every class incl. the empty string
+\* (the nullable single-value codec used by the sort spill files is run on every scalar and string value above)
 -----------------------------------------------------------------------------
 \* The big tables are computed once and parked in TLC registers (operator arguments are evaluated by name,
 \* so referring to the defining expressions again would recompute them for every pair).
